@@ -1,4 +1,5 @@
 import TongoModel.WalletSend
+import TongoModel.Hashmap
 /-! Wallet message bodies, signing, the external-message envelope, verification and decoding
 (wallet/wallet_v3.go, wallet_v4.go, wallet_v5.go, wallet_v5_beta.go, wallet_highload_v2.go createSignedMsgBodyCell;
 wallets_common.go signBodyCell; messages.go payload marshalers, decoders, ExtractRawMessages, VerifySignature,
@@ -68,13 +69,26 @@ def w5Actions : List RawMsg → Outcome Cell
     let b ← b.addRef m.msg
     pure b.toCell
 
-/-- the value stored under key i of the highload dictionary: `mode ++ ^msg` -/
-def highloadValue (b : CellB) (m : RawMsg) : Outcome CellB := payloadStep b m
+/-- one entry of the highload dictionary as `PayloadHighload.UnmarshalTLB` reads it: mode byte, then the message ref -/
+def highloadEntry (x : List Bool × CellR) : Outcome RawMsg := do
+  let (mode, vr) ← x.2.readUint 8
+  let (m, _) ← vr.nextRef
+  pure { mode := mode, msg := m }
 
-/-- the dictionary cell of `PayloadHighload.MarshalTLB` (`Hashmap[Uint16, Any]` with keys 0..n-1). For no message the
-Go code used to marshal an empty `Hashmap` into an empty cell; the caller decides what to do with 0 messages. -/
-def highloadDict (msgs : List RawMsg) : Outcome Cell :=
-  encodeMap highloadValue 18 ((List.range msgs.length).zip msgs |>.map fun (i, m) => (natToBits 16 i, m)) 16
+/-- the value codec of the highload dictionary (`Hashmap[Uint16, Any]` whose values are cells `mode ‖ ^msg`): writing
+appends the mode byte and the ref to the leaf; reading takes the rest of the leaf (`Any`) and then mode and ref. (Go
+reads all values as `Any` first and parses them afterwards; either way a malformed entry makes the whole decode fail.) -/
+def highloadCodec : Hashmap.Codec RawMsg where
+  enc m := .ok (natToBits 8 m.mode, [m.msg])
+  dec bits refs := highloadEntry ([], { bits := bits, refs := refs })
+
+/-- the entries handed to the dictionary encoder: key i (16 bits) ↦ message i -/
+def highloadKvs (msgs : List RawMsg) : List (Hashmap.Key × RawMsg) :=
+  (List.range msgs.length).zip msgs |>.map fun p => (natToBits 16 p.1, p.2)
+
+/-- the dictionary cell of `PayloadHighload.MarshalTLB`: `tlb.Marshal(dict, NewHashmap(keys, values))` with the shared
+dictionary encoder (entries ordered by key bits, canonical shortest edge labels) -/
+def highloadDict (msgs : List RawMsg) : Outcome Cell := Hashmap.marshal highloadCodec 16 (highloadKvs msgs)
 
 /-- `PayloadHighload.MarshalTLB` (after the repair: an empty payload is the empty dictionary `hme_empty$0`) -/
 def payloadHighload (b : CellB) (msgs : List RawMsg) : Outcome CellB :=
@@ -367,12 +381,6 @@ def readActionsRefIf (r : CellR) (flag : Bool) : Outcome (List (Nat × Option Ce
 def actionsToMsgs (l : List (Nat × Option Cell)) : List RawMsg :=
   l.map fun (mode, m) => { mode := mode, msg := m.getD (.ordinary [] []) }
 
-/-- one entry of the highload dictionary as `PayloadHighload.UnmarshalTLB` reads it: mode byte, then the message ref -/
-def highloadEntry (x : List Bool × CellR) : Outcome RawMsg := do
-  let (mode, vr) ← x.2.readUint 8
-  let (m, _) ← vr.nextRef
-  pure { mode := mode, msg := m }
-
 /-- the decoder of the version applied to the body cell of an external message:
 `DecodeMessageV3/V4/HighloadV2` (via `SignedMsgBody`), `DecodeMessageV5`, `DecodeMessageV5Beta` -/
 def decodeBody (v : Version) (body : Cell) : Outcome Decoded :=
@@ -400,9 +408,8 @@ def decodeBody (v : Version) (body : Cell) : Outcome Decoded :=
       let (_, r) ← r.readBits 512
       let (sub, r) ← r.readUint 32
       let (q, r) ← r.readUint 64
-      let (kvs, _) ← readHashmapE (fun r => .ok r) 16 r
-      let ms ← kvs.mapM highloadEntry
-      pure { ids := { subWallet := sub }, seqno := 0, validUntil := q / 4294967296, queryId := q, msgs := ms }
+      let kvs ← Hashmap.unmarshalE highloadCodec 16 (.ordinary r.bits r.refs)
+      pure { ids := { subWallet := sub }, seqno := 0, validUntil := q / 4294967296, queryId := q, msgs := kvs.map (·.2) }
     | .v5r1 => do
       if r.bits.length < 32 then .err "can not decode sumtype"
       else
